@@ -1,5 +1,66 @@
 // BOUNDED check (C11 parse side): declared bounds and messages survive the token-string parsers.
 use tauri_typegen::analysis::validator_parser::ValidatorParser;
+use tauri_typegen::generators::zod::schema_builder::ZodSchemaBuilder;
+use tauri_typegen::models::{LengthConstraint, RangeConstraint, ValidatorAttributes};
+use tauri_typegen::GenerateConfig;
+
+/// decode the body of a JavaScript double-quoted string literal (ES2019); None = not a valid body
+fn js_decode(body: &str) -> Option<String> {
+    let cs: Vec<char> = body.chars().collect();
+    let mut out = String::new();
+    let mut units: Vec<u16> = Vec::new();
+    let flush = |units: &mut Vec<u16>, out: &mut String| -> bool { if units.is_empty() { return true; } match String::from_utf16(units) { Ok(s) => { out.push_str(&s); units.clear(); true } Err(_) => false } };
+    let mut i = 0;
+    while i < cs.len() {
+        let c = cs[i];
+        if c == '\\' {
+            i += 1;
+            let e = *cs.get(i)?;
+            match e {
+                'u' => {
+                    if cs.get(i + 1) == Some(&'{') {
+                        let close = (i + 2..cs.len()).find(|k| cs[*k] == '}')?;
+                        let v = u32::from_str_radix(&cs[i + 2..close].iter().collect::<String>(), 16).ok()?;
+                        if !flush(&mut units, &mut out) { return None; }
+                        out.push(char::from_u32(v)?);
+                        i = close;
+                    } else {
+                        let hex: String = cs.get(i + 1..i + 5)?.iter().collect();
+                        units.push(u16::from_str_radix(&hex, 16).ok()?);
+                        i += 4;
+                    }
+                }
+                _ => {
+                    if !flush(&mut units, &mut out) { return None; }
+                    match e { 'n' => out.push('\n'), 't' => out.push('\t'), 'r' => out.push('\r'), '0' => out.push('\0'), 'b' => out.push('\u{8}'), 'f' => out.push('\u{c}'), 'v' => out.push('\u{b}'),
+                        'x' => { let hex: String = cs.get(i + 1..i + 3)?.iter().collect(); out.push(char::from_u32(u32::from_str_radix(&hex, 16).ok()?)?); i += 2; }
+                        other => out.push(other) }
+                }
+            }
+        } else if c == '"' || c == '\n' || c == '\r' {
+            return None;
+        } else {
+            if !flush(&mut units, &mut out) { return None; }
+            out.push(c);
+        }
+        i += 1;
+    }
+    if !flush(&mut units, &mut out) { return None; }
+    Some(out)
+}
+
+/// the message literal of `.min(1, { message: "..." })` in a schema text
+fn message_literal(schema: &str) -> Option<&str> {
+    let start = schema.find("{ message: \"")? + "{ message: \"".len();
+    let rest = &schema[start..];
+    let mut esc = false;
+    for (i, ch) in rest.char_indices() {
+        if esc { esc = false; continue; }
+        if ch == '\\' { esc = true; continue; }
+        if ch == '"' { return Some(&rest[..i]); }
+    }
+    None
+}
 use verif_native::*;
 
 fn main() {
@@ -55,6 +116,26 @@ fn main() {
                 }
             });
         }
+    }
+    // C11 render side, end to end through build_schema: the emitted literal decodes (JavaScript rules) to
+    // exactly the declared message — any correct escaping style is accepted
+    let cfg = GenerateConfig::default();
+    let string_ty = tauri_typegen::models::TypeStructure::Primitive("string".to_string());
+    let number_ty = tauri_typegen::models::TypeStructure::Primitive("number".to_string());
+    for m in &msgs {
+        if m.is_empty() { continue; }
+        let va = ValidatorAttributes { length: Some(LengthConstraint { min: Some(1), max: None, message: Some(m.clone()) }), range: None, email: false, url: false, custom_message: None };
+        rep.case("message_literal_round_trips", &format!("length message {:?}", m), &|| {
+            let schema = ZodSchemaBuilder::new(&cfg).build_schema(&string_ty, &Some(va.clone()));
+            let lit = message_literal(&schema).ok_or(format!("no message literal in `{}`", schema))?;
+            match js_decode(lit) { Some(d) if d == *m => Ok(schema.clone()), other => Err(format!("literal `{}` decodes to {:?}, declared {:?}", lit, other, m)) }
+        });
+        let vr = ValidatorAttributes { length: None, range: Some(RangeConstraint { min: None, max: Some(9.5), message: Some(m.clone()) }), email: false, url: false, custom_message: None };
+        rep.case("message_literal_round_trips", &format!("range message {:?}", m), &|| {
+            let schema = ZodSchemaBuilder::new(&cfg).build_schema(&number_ty, &Some(vr.clone()));
+            let lit = message_literal(&schema).ok_or(format!("no message literal in `{}`", schema))?;
+            match js_decode(lit) { Some(d) if d == *m => Ok(schema.clone()), other => Err(format!("literal `{}` decodes to {:?}, declared {:?}", lit, other, m)) }
+        });
     }
     rep.finish()
 }
